@@ -582,7 +582,7 @@ class Task(object):
             return self.state
 
         start_wait = time.time()
-        while self.state not in states:
+        while self.state not in states and self.state not in rps.FINAL:
 
             time.sleep(0.1)
 
